@@ -52,8 +52,10 @@ def check_links(rows, out, expected_ids, what):
     return None
 
 
-async def transformer_case(context):
+async def transformer_case(context, directed=False):
     nports, tags = rng.randint(1, 3), [f"0.{i}" for i in rng.sample(range(12), rng.randint(1, 4))]
+    if directed:  # two ports, three tags, opposite arrival orders
+        nports, tags = 2, ["0.0", "0.1", "0.10"]
     wf = Workflow(context=context, name=uniq("c07-t"), config={})
     ports = {n: wf.create_port() for n in ["a", "b", "c"][:nports]}
     out_port = wf.create_port()
@@ -65,7 +67,7 @@ async def transformer_case(context):
     toks = {}
     order = {}
     for n, p in ports.items():
-        order[n] = rng.sample(tags, len(tags))
+        order[n] = rng.sample(tags, len(tags)) if not directed else (list(tags) if n == "a" else list(reversed(tags)))
         for t in order[n]:
             tok = Token(f"{n}@{t}", tag=t)
             await tok.save(context.database, p.persistent_id)
@@ -536,7 +538,7 @@ async def search(n):
             bad = await gather_case(context, m, ws)
             if bad:
                 return bad
-        bad = await combinator_case(context, shape="cart(x,y)", nx=3, ny=3) or await shared_token_case(context)
+        bad = await transformer_case(context, directed=True) or await combinator_case(context, shape="cart(x,y)", nx=3, ny=3) or await shared_token_case(context)
         if bad:
             return bad
         for k in range(n):
